@@ -9,6 +9,9 @@ use std::time::Duration;
 use super::blocking::SyncBlocker;
 use crate::cancel::trigger_cancel_panic;
 use crate::park::ParkError;
+#[cfg(may_verif)]
+use crate::verif::SegQueue;
+#[cfg(not(may_verif))]
 use crossbeam::queue::SegQueue;
 
 /// SyncFlag primitive
